@@ -7,7 +7,9 @@ import (
 	"fmt"
 	"sort"
 	"strconv"
+	"sync"
 	"testing"
+	"time"
 
 	"github.com/ProtonMail/gluon/db"
 	"github.com/ProtonMail/gluon/imap"
@@ -53,7 +55,8 @@ type caseState struct {
 	s            *sut
 	ops          int
 	bigList      bool
-	abortedAfter bool // some aborted transaction had >= 1 write before the abort point
+	abortedAfter bool  // some aborted transaction had >= 1 write before the abort point
+	abortWith    error // the error the transaction function returns when it aborts (drawn per transaction)
 	labels       map[string]struct{}
 	smallCases   bool
 }
@@ -115,9 +118,9 @@ func (c *caseState) runTx(next func(i int) *op, nOps, abortAt int) error {
 		for i := 0; i < nOps; i++ {
 			if i == abortAt {
 				aborted = true
-				s.hist = append(s.hist, "-- abort (transaction function returns an error)")
+				s.hist = append(s.hist, fmt.Sprintf("-- abort (transaction function returns the error %q)", c.abortErr()))
 
-				return errAbort
+				return c.abortErr()
 			}
 
 			o := next(i)
@@ -145,7 +148,7 @@ func (c *caseState) runTx(next func(i int) *op, nOps, abortAt int) error {
 				ev.Class("tx-outcome:ended-by-failed-op", 1)
 				ev.Class("failed-op:"+o.name, 1)
 
-				return errAbort
+				return c.abortErr()
 			}
 
 			if o.write {
@@ -155,9 +158,9 @@ func (c *caseState) runTx(next func(i int) *op, nOps, abortAt int) error {
 
 		if abortAt >= nOps {
 			aborted = true
-			s.hist = append(s.hist, "-- abort (transaction function returns an error)")
+			s.hist = append(s.hist, fmt.Sprintf("-- abort (transaction function returns the error %q)", c.abortErr()))
 
-			return errAbort
+			return c.abortErr()
 		}
 
 		return nil
@@ -168,8 +171,8 @@ func (c *caseState) runTx(next func(i int) *op, nOps, abortAt int) error {
 	}
 
 	if aborted {
-		if !errors.Is(err, errAbort) {
-			return fmt.Errorf("Write: the transaction function returned an error, Write returned %v", err)
+		if !errors.Is(err, c.abortErr()) {
+			return fmt.Errorf("Write: the transaction function returned the error %q, Write returned %v", c.abortErr(), err)
 		}
 
 		pre.fresh = s.m.fresh
@@ -192,6 +195,15 @@ func (c *caseState) runTx(next func(i int) *op, nOps, abortAt int) error {
 	}
 
 	return nil
+}
+
+// abortErr is the error an aborting transaction function returns: whatever it is, the transaction leaves no trace.
+func (c *caseState) abortErr() error {
+	if c.abortWith == nil {
+		return errAbort
+	}
+
+	return c.abortWith
 }
 
 func (c *caseState) finish(t *rapid.T) {
@@ -285,6 +297,11 @@ func TestStateMachine(t *testing.T) {
 				abortAt = rapid.IntRange(0, nOps).Draw(t, "abortat")
 			}
 
+			// what a transaction function returns when it gives up: an error of its own, or an error of the db package
+			// passed through (a lookup that found nothing is the usual reason for giving up), bare or wrapped
+			c.abortWith = []error{errAbort, errAbort, db.ErrNotFound, fmt.Errorf("c08: looking up the next step: %w", db.ErrNotFound),
+				context.Canceled, db.ErrTransactionFailed}[rapid.IntRange(0, 5).Draw(t, "abortwith")]
+
 			if v := c.runTx(func(int) *op { g.m = s.m; return drawRule(g, false).gen(g) }, nOps, abortAt); v != nil {
 				fail(v)
 			}
@@ -328,6 +345,71 @@ func TestStateMachine(t *testing.T) {
 			ev.Class("action:read", 1)
 		}
 
+		// several readers inside db.Client.Read at the same moment (two sessions reading at once): Read takes a shared
+		// lock only, so they run side by side - on several connections of the pool, which serve the later operations too
+		overlap := func(t *rapid.T) {
+			k := rapid.IntRange(2, 8).Draw(t, "readers")
+			want := len(s.m.mboxes)
+			s.hist = append(s.hist, fmt.Sprintf("-- %d overlapping Read calls (GetMailboxCount)", k))
+
+			var (
+				wg      sync.WaitGroup
+				entered = make(chan struct{}, k)
+				release = make(chan struct{})
+				results = make([]error, k)
+			)
+
+			for i := 0; i < k; i++ {
+				i := i
+
+				wg.Add(1)
+
+				go func() {
+					defer wg.Done()
+
+					results[i] = s.client.Read(context.Background(), func(ctx context.Context, ro db.ReadOnly) error {
+						entered <- struct{}{}
+						<-release
+
+						n, err := ro.GetMailboxCount(ctx)
+						if err != nil {
+							return err
+						}
+
+						if n != want {
+							return fmt.Errorf("GetMailboxCount = %d, the model has %d mailboxes", n, want)
+						}
+
+						return nil
+					})
+				}()
+			}
+
+			// all of them are inside Read before any of them goes on (bounded: a Read that could not start is a finding)
+			timeout := time.After(30 * time.Second)
+
+			for i := 0; i < k; i++ {
+				select {
+				case <-entered:
+				case <-timeout:
+					close(release)
+					fail(fmt.Errorf("%d Read calls were started, only %d got in within 30 s: readers exclude each other", k, i))
+				}
+			}
+
+			close(release)
+			wg.Wait()
+
+			for _, err := range results {
+				if err != nil {
+					fail(fmt.Errorf("overlapping Read: %v", err))
+				}
+			}
+
+			c.label("overlapping-reads")
+			ev.Class("action:overlapping-reads", 1)
+		}
+
 		actions := map[string]func(*rapid.T){
 			"step": func(t *rapid.T) {
 				if c.ops >= maxOpsSmall {
@@ -339,8 +421,10 @@ func TestStateMachine(t *testing.T) {
 				switch k := g.intn("step", 100); {
 				case k < 74:
 					tx(t)
-				case k < 88:
+				case k < 84:
 					read(t)
+				case k < 90:
+					overlap(t)
 				default:
 					if err := s.reopen(); err != nil {
 						fail(err)
